@@ -27,6 +27,10 @@ CLAIMED = {
          "lock that guards the insert, generate only on miss edges inside that hold, and mutate the schema object resolved from the container; generators are referenced only by creators and each is one atomic "
          "increment; lookups consult mutable, immutable and persisted data before creating; counters are synced before dictionaries and postings before the series dictionary; prepare-flush swaps only onto an empty "
          "immutable; immutable is cleared only after a successful commit (new snapshot in the same hold); counter file writer/reader agree per role; plus the F8 freeze rule shared with C07 (known finding)."),
+ 'C17': ("static analysis over the type-checked AST and go/ssa: exhaustiveness of the Marshal type switch over all Expr implementers, tag/type agreement of Marshal and Unmarshal, per-kind and per-statement field coverage (value flow + unconditional copy), carrier tag uniqueness, parser determinism scan",
+         "Decides writer/reader agreement of the statement wire form: every Expr implementer has a Marshal case; the tag sets agree and each tag binds one Go type on both sides; leaf kinds go through the JSON encoder over exported uniquely-tagged fields; every field of every structured kind is read when marshalling and set when "
+         "unmarshalling; every field of Query/MetricMetadata flows into the carrier and back through the same carrier field, not conditional on anything but itself or a decode error; the leaf executes the decoded payload and the root sends MarshalJSON; no map-ordered construction or stray clock source in the parser. "
+         "The JSON library's value-level round trip and ANTLR are trusted."),
  'C19': ("static analysis: exactly-once path rules (PASS), CAS-guard facts, ownership of the callback/response call sites, error-flow (latch) rule over go/ssa",
          "Decides the skeleton that exactly-once completion with error propagation rests on, for every stage tree and completion order at once: pending++ before execution and before the parent's "
          "(non-deferred) completion; exactly one of complete/error handler per stage path, the pooled task's panic handler being the error handler and the pool's recover block calling it; "
